@@ -30,7 +30,7 @@ IPRINTS = (-1, 0, 1, 7, 99, 100, 101, 1000)
 def floors(tier):
     return {"results_compared_with_fresh_baseline": 400, "schedules": 150, "context_switches": 800, "enumerated_schedules": 100,
             "line_level_schedules": 20, "line_events": 20000, "nested_runs": 15, "frozen_cases": 15, "iprint_runs": 100,
-            "double_restarts": 20, "__nontrivial__": 150}
+            "double_restarts": 20, "hostile_user_runs": 20, "__nontrivial__": 150}
 
 
 def exhaustive(tier):
@@ -63,11 +63,18 @@ def cases(tier, seed):
     for i in range(48 if q else 600):
         cfg = small_cfg(rng, "callable")
         yield {"kind": "restart2", "problem": prob(6), "cfg": cfg, "scaler": gen.pick(rng, [None, 0.01, 3.0, "packaged"]),
-               "extra": int(rng.integers(1, 4))}
+               "extra": int(rng.integers(1, 4)), "target_met": bool(i % 3 == 0)}
     for i in range(32 if q else 800):
         yield {"kind": "frozen", "problem": prob(6), "cfg": small_cfg(rng), "scaler": gen.pick(rng, [None, 0.5, 7.0, "packaged"])}
     for i in range(16 if q else 300):
         yield {"kind": "iprint", "problem": prob(5), "cfg": small_cfg(rng)}
+    for i in range(24 if q else 500):
+        # logging must not influence a run whose objective is redefined on the fly (curvature filter, its "dropping" messages)
+        ps = gen.rand_spec(rng, ("qp", "qp_quartic"), nmax=7, nmin=2, boxes=("none", "mixed", "boxed"), starts=("interior", "face"), condmax=1e3)
+        yield {"kind": "iprint_ufd", "switch": {"problem": ps, "maxcor": int(rng.integers(2, 7)), "maxiter": int(rng.integers(6, 12)),
+                                                "switch_at": int(rng.integers(2, 6)), "variant": gen.pick(rng, ["indefinite", "indefinite", "reg"]),
+                                                "vseed": int(rng.integers(0, 2**31 - 1)), "strength": float(rng.uniform(0.5, 3.0)),
+                                                "eps_SY": float(gen.pick(rng, [2.2e-16, 1e-2, 0.1]))}}
     for i in range(16 if q else 200):
         # very short runs so that all interleavings can be enumerated
         ca = dict(jac="callable", maxcor=int(rng.integers(1, 4)), maxls=5, maxiter=int(rng.integers(1, 4)), ftol=0.0, gtol=1e-10, maxfun=6)
@@ -80,6 +87,8 @@ def cases(tier, seed):
         yield {"kind": "line", "items": [{"problem": pa, "cfg": small_cfg(rng)}, {"problem": twin(pa), "cfg": small_cfg(rng)}]
                + [{"problem": prob(5), "cfg": small_cfg(rng)} for _ in range(k - 2)],
                "seeds": [int(s) for s in rng.integers(0, 2**31 - 1, 4 if q else 12)], "p": float(gen.pick(rng, [0.002, 0.01, 0.05]))}
+    for i in range(48 if q else 1500):
+        yield {"kind": "hostile", "problem": prob(6), "cfg": dict(small_cfg(rng), cb="never", maxiter=int(rng.integers(3, 15)))}
     for i in range(24 if q else 500):
         pa = prob(4)
         yield {"kind": "nested", "a": {"problem": pa, "cfg": small_cfg(rng)}, "b": {"problem": twin(pa) if i % 2 else prob(4), "cfg": small_cfg(rng)},
@@ -124,12 +133,20 @@ def case_restart2(spec, out):
         out.count("baseline_raised")
         return
     ck = first.result
-    before = probes.fingerprint(ck.x, ck.jac, ck.hess_inv.sk, ck.hess_inv.yk, float(ck.fun), int(ck.nfev), int(ck.nit))
+
+    def fp():
+        return probes.fingerprint(ck.x, ck.jac, ck.hess_inv.sk, ck.hess_inv.yk, float(ck.fun), int(ck.nfev), int(ck.njev), int(ck.nit),
+                                  str(ck.message), int(ck.status), bool(ck.success), sorted(ck.keys()))
+
+    before = fp()
     c2 = dict(cfg, maxiter=int(ck.nit) + spec["extra"])
     if spec["scaler"] is not None:
         c2["scaler"] = spec["scaler"]
+    if spec.get("target_met") and np.isfinite(ck.fun):
+        c2["ftarget"] = float(ck.fun) + 1.0  # the checkpoint already meets the target: early return path
+        c2.pop("scaler", None)
     r1 = probes.run_min(P, c2, checkpoint=ck, x0=np.array(ck.x, copy=True))
-    mid = probes.fingerprint(ck.x, ck.jac, ck.hess_inv.sk, ck.hess_inv.yk, float(ck.fun), int(ck.nfev), int(ck.nit))
+    mid = fp()
     r2 = probes.run_min(P, c2, checkpoint=ck, x0=np.array(ck.x, copy=True))
     out.count("double_restarts")
     tags = dict(kind="restart2", scaler=str(spec["scaler"]))
@@ -222,6 +239,39 @@ def case_iprint(spec, out):
             elif d != ref:
                 out.violate("logging_changes_result", f"iprint {P.spec['family']}: iprint={ip} logger={'capturing' if lg else None} gives digest {d[:12]} "
                             f"!= {ref[:12]} (iprint=-1, no logger)", kind="iprint", iprint=ip, logger=lg)
+                return
+    out.nontrivial = True
+
+
+def case_hostile(spec, out):
+    """A user who returns every gradient in one reused work array and overwrites the arrays it is handed (objective /
+    gradient argument, callback xk) must get exactly the run of a well-behaved user."""
+    item = {"problem": spec["problem"], "cfg": spec["cfg"]}
+    want = fresh.fresh_digests([item])[0]
+    P = gen.make_problem(spec["problem"])
+    tr = probes.run_min(P, dict(spec["cfg"], hostile_user=True))
+    out.count("hostile_user_runs")
+    compare(out, digest_of(tr), want, f"hostile {P.spec['family']} jac={spec['cfg']['jac']}: run with a buffer-reusing, argument-overwriting user",
+            dict(kind="hostile", mode=str(spec["cfg"]["jac"])))
+    out.nontrivial = True
+
+
+def case_iprint_ufd(spec, out):
+    from .C13 import switch_trace
+
+    ref = None
+    for ip in (-1, 0, 1, 99, 101, 1000):
+        for lg in (False, True):
+            tr = switch_trace(spec["switch"], dict(iprint=ip, logger=lg))
+            out.count("iprint_runs")
+            out.count("iprint_runs_with_objective_switch")
+            d = digest_of(tr)
+            if ref is None:
+                ref = d
+            elif d != ref:
+                out.violate("logging_changes_result", f"iprint_ufd: objective switch at update call {spec['switch']['switch_at']} ({spec['switch']['variant']}): "
+                            f"iprint={ip} logger={'capturing' if lg else None} gives digest {d[:12]} != {ref[:12]} (iprint=-1, no logger)",
+                            kind="iprint_ufd", iprint=ip, logger=lg)
                 return
     out.nontrivial = True
 
@@ -354,6 +404,10 @@ def run(spec):
         case_line(spec, out, keys)
     elif kind == "nested":
         case_nested(spec, out, keys)
+    elif kind == "hostile":
+        case_hostile(spec, out)
+    elif kind == "iprint_ufd":
+        case_iprint_ufd(spec, out)
     if keys:
         out.keys = keys
         out.nontrivial = True
